@@ -86,7 +86,9 @@ def boxes(h: Harness):
         for hi in range(lo, 4):
             for inner in (("cls", 0), ("ann", "int", ("intRange", 0, 1))):
                 gen_case(h, b, ("ann", ("list", inner), ("listSize", lo, hi)), ListSizeBetween(lo, hi), "ListSizeBetween")
-    for al in (["a"], ["a", "b"], ["a", "b", "c"], ["c"], ["b", "c"]):  # (same bounds, different alphabets in one process)
+    # (same bounds, different alphabets in one process; alphabets of punctuation: a character is a character, whatever it
+    # means to a pattern language)
+    for al in (["a"], ["a", "b"], ["a", "b", "c"], ["c"], ["b", "c"], ["^", "a"], ["a", "-", "c"], ["]", "a"], [".", "b"], ["+", "*"], ["[", "]"], ["$", "|", "?"]):
         for lo in range(0, 3):
             for hi in range(lo, 3 if len(al) < 3 else 2):
                 gen_case(h, b, ("ann", "str", ("strSize", lo, hi, al)), StringSizeBetween(lo, hi, al), "StringSizeBetween")
@@ -123,14 +125,35 @@ def count_refined(s: str) -> int:
     return s.count("(i ") + s.count("(s ")
 
 
+def failing_element_specs():
+    """a production whose bounded list has elements that can NEVER (or only sometimes) be created -- a dependent VarRange over an
+    empty / possibly empty sibling list raises the library's SynthesisException: the production fails as a whole and another
+    one is taken; a list shorter than its lower bound is not an outcome"""
+    C = gram.ClassSpec
+    out = []
+    for never, mh in ((True, "listSizeNoOps"), (False, "listSizeNoOps"), (True, "listSize"), (False, "listSize")):
+        out.append(gram.Spec([
+            C("A0", True, None),
+            C("Leaf", False, 0, [("k", ("ann", "int", ("intRange", 0, 3)))]),
+            C("V", False, None, [("vars", ("ann", ("list", ("ann", "str", ("varRange", ["x", "y"]))), ("listSize", 0, 0 if never else 1))),
+                                 ("x", ("ann", "str", ("depVarFrom", "vars")))]),
+            C("Bad", False, 0, [("xs", ("ann", ("list", ("cls", 2)), (mh, 1 if never else 3, 3)))]),
+            C("Wrap", False, 0, [("a", ("cls", 0)), ("n", ("ann", "int", ("intRange", 1, 2)))]),
+        ], 0, [3, 1, 4, 2]))
+    return out
+
+
 def programs(h: Harness):
     import linear
     from linear import DSGE, GE, SGE, Stack, safe
     from geneticengine.random.sources import NativeRandomSource
     from geneticengine.representations.tree.treebased import TreeBasedRepresentation
     rng = h.rng
-    for gi in range(h.n(90, 1500)):
-        spec = dense_spec(rng)
+    corpus = failing_element_specs()
+    for gi in range(h.n(90, 1500) + len(corpus)):
+        spec = corpus[gi] if gi < len(corpus) else dense_spec(rng)
+        if gi < len(corpus):
+            h.count("corpus:list-elements-that-cannot-be-created")
         b = gram.build(spec)
         try:
             g = b.extract()
